@@ -125,7 +125,7 @@ def build_driver():
     od = os.path.join(BUILD, "ocaml")
     os.makedirs(od, exist_ok=True)
     stamp = os.path.join(od, ".stamp")
-    deps = [os.path.join(ex, "Extract.v"), os.path.join(ROOT, "ocaml", "driver.ml")]
+    deps = [os.path.join(ex, "Extract.v"), os.path.join(ROOT, "ocaml", "driver.ml"), os.path.join(ROOT, "ocaml", "treedrv.ml")]
     with open(os.path.join(ex, "Extract.v")) as f:
         for m in re.finditer(r"Verif Require Import ([^.]*(?:\.[A-Za-z][^. \n]*)*)\.", f.read()):
             pass
@@ -145,9 +145,10 @@ def build_driver():
     for f in ("models.ml", "models.mli"):
         with open(os.path.join(ex, f), "rb") as fh:
             write_if_changed(os.path.join(od, f), fh.read())
-    with open(os.path.join(ROOT, "ocaml", "driver.ml"), "rb") as fh:
-        write_if_changed(os.path.join(od, "driver.ml"), fh.read())
-    p = sh(["ocamlfind", "ocamlopt", "-O3", "-w", "-a", "models.mli", "models.ml", "driver.ml", "-o", "driver"],
+    for src in ("treedrv.ml", "driver.ml"):
+        with open(os.path.join(ROOT, "ocaml", src), "rb") as fh:
+            write_if_changed(os.path.join(od, src), fh.read())
+    p = sh(["ocamlfind", "ocamlopt", "-O3", "-w", "-a", "models.mli", "models.ml", "treedrv.ml", "driver.ml", "-o", "driver"],
            cwd=od, timeout=1200)
     if p.returncode != 0:
         return False, (p.stdout + p.stderr).decode(errors="replace")
